@@ -173,6 +173,7 @@ func intrinsicTable() map[string]intrinsic {
 					w.eng.mu.Lock()
 					w.eng.res.Violations = append(w.eng.res.Violations, v)
 					w.eng.mu.Unlock()
+					w.pathViol++
 				}
 			}
 		}
@@ -488,11 +489,13 @@ func (w *Worker) assertion(id string, c *Term) {
 		e.res.Folded++
 		e.mu.Unlock()
 		if c.val == 0 {
+			// false on every input of this path: record it and keep executing (nothing to assume), so that
+			// assertions of other properties further down the same path are still checked
 			v := w.makeViolation("assert", id)
 			e.mu.Lock()
 			e.res.Violations = append(e.res.Violations, v)
 			e.mu.Unlock()
-			w.abort("infeasible", "assertion false on every input of this path")
+			w.pathViol++
 		}
 		return
 	}
@@ -548,7 +551,21 @@ func (w *Worker) assertion(id string, c *Term) {
 		e.mu.Lock()
 		e.res.Violations = append(e.res.Violations, v)
 		e.mu.Unlock()
+		w.pathViol++
 	}
-	// continue under the assumption that the assertion holds
+	// continue under the assumption that the assertion holds (when some inputs of this path satisfy it)
+	if r == Sat {
+		if cur, ok := w.evalUnderModel(c); ok && cur {
+			w.pc = append(w.pc, c)
+			return
+		}
+		if r2, m2 := w.feasible(c, true); r2 == Unsat {
+			return // violated by every input of the path: go on without the assumption
+		} else {
+			w.pc = append(w.pc, c)
+			w.model, w.modelOK = m2, m2 != nil && r2 == Sat
+			return
+		}
+	}
 	w.assume(c)
 }
